@@ -2,6 +2,7 @@
 #![allow(clippy::all)]
 mod genair;
 mod run;
+mod validate;
 
 use serde_json::json;
 use wfcommon::util::{read_ndjson, Out};
@@ -30,11 +31,58 @@ fn pipeline(args: &[String]) -> i32 {
     0
 }
 
+fn validate_engine(args: &[String]) -> i32 {
+    let cases = read_ndjson(&args[0]);
+    let mut out = Out::new();
+    let mut bad = 0;
+    for (i, c) in cases.iter().enumerate() {
+        let vc: validate::VCase = match serde_json::from_value(c.clone()) {
+            Ok(c) => c,
+            Err(e) => {
+                eprintln!("bad case {i}: {e}");
+                return 2;
+            },
+        };
+        let r = validate::validate(&vc);
+        if r["valid"] != json!(vc.expect_valid) {
+            bad += 1;
+            out.emit(&json!({"i": i, "ok": false, "got": r, "expected_valid": vc.expect_valid}));
+        }
+    }
+    out.emit(&json!({"summary": true, "cases": cases.len(), "mismatches": bad}));
+    out.flush();
+    0
+}
+
+fn tables_engine(args: &[String]) -> i32 {
+    use winterfell::math::fields::{f128, f64};
+    let cases = read_ndjson(&args[0]);
+    let threads: usize = std::env::var("WF_THREADS").ok().and_then(|s| s.parse().ok()).unwrap_or(1);
+    let pool = rayon::ThreadPoolBuilder::new().num_threads(threads).build().unwrap();
+    let mut out = Out::new();
+    for (i, c) in cases.iter().enumerate() {
+        let w = c["width"].as_u64().unwrap() as usize;
+        let l = c["log_len"].as_u64().unwrap() as u32;
+        let seed = c["seed"].as_u64().unwrap_or(1);
+        let mut r = pool.install(|| match c["field"].as_str().unwrap_or("f64") {
+            "f128" => validate::tables::<f128::BaseElement>(w, l, seed),
+            "t40961" => validate::tables::<wfcommon::toy::F40961>(w, l, seed),
+            _ => validate::tables::<f64::BaseElement>(w, l, seed),
+        });
+        r["i"] = json!(i);
+        out.emit(&r);
+    }
+    out.flush();
+    0
+}
+
 fn main() {
     let args: Vec<String> = std::env::args().collect();
     wfcommon::util::install_quiet_panic_hook();
     let code = match args.get(1).map(|s| s.as_str()) {
         Some("pipeline") => pipeline(&args[2..]),
+        Some("validate") => validate_engine(&args[2..]),
+        Some("tables") => tables_engine(&args[2..]),
         _ => {
             eprintln!("usage: wf-stark <pipeline> ...");
             2
